@@ -25,7 +25,7 @@ Definition mouse_eqb (a b : mouse) : bool :=
   (m_button a =? m_button b) && (m_row a =? m_row b) && (m_col a =? m_col b) &&
   (m_etype a =? m_etype b) && (m_mods a =? m_mods b).
 
-(* seq.Parameters[k][0]: None = index out of range *)
+(* the Go expression seq.Params[k][0] (field name abbreviated): None = index out of range *)
 Definition par (ps : list (list Z)) (k : Z) : option Z :=
   match zget ps k with
   | Some p => zget p 0
